@@ -21,7 +21,8 @@ import AmaranthVerif.Spec.RtlilWF
   pattern (a case without patterns always matches, `-` matches either bit); right-hand sides read
   the values at the start of the process.
 * undefined values (`x` constants, `INIT_VALUE` of read ports, reads outside the memory, division
-  by zero) are resolved to all-zeros or all-ones as directed by `xres`; the driver evaluates both
+  by zero, write ports of different clocks hitting the same bits in one event) are resolved to all-zeros or
+  all-ones (one or the other order of the clock groups) as directed by `xres`; the driver evaluates both
   and reports whether an observation depends on the choice.
 
 Not evaluated (an error if present): `$tribuf`, `$anyconst/$anyseq/$allconst/$allseq`,
@@ -504,10 +505,14 @@ def step (s : Sim) (st : State) (changes : List (String × Nat)) : Except String
       some (f.q, specVal c e1 f.d)
     else none)
   -- write ports that fire: (memory, port id, address, data, enable mask)
-  let writes := s.flat.wrs.filterMap (fun w =>
-    if edge w.pol (clk0 w.clk) (specVal c e1 w.clk) then
-      some (w.mem, w.portid, specVal c e1 w.addr, specVal c e1 w.data, specVal c e1 w.en)
-    else none)
+  let firing := s.flat.wrs.filter (fun w => edge w.pol (clk0 w.clk) (specVal c e1 w.clk))
+  -- Write ports of one clock keep their port order (later ports win, as in the simulator's per-domain process).
+  -- No write port has priority over another (`PRIORITY_MASK 0`), so when ports of *different* clocks fire in the
+  -- same event and hit the same bits the result is undefined in the RTLIL: the clock groups are applied in one
+  -- order under `xres = false` and in the opposite order under `xres = true`, like every other undefined value.
+  let keys := firing.foldl (fun (ks : List (SigSpec × Bool)) w => if ks.contains (w.clk, w.pol) then ks else ks ++ [(w.clk, w.pol)]) []
+  let grouped := (if c.xres then keys.reverse else keys).flatMap (fun k => firing.filter (fun w => (w.clk, w.pol) == k))
+  let writes := grouped.map (fun w => (w.mem, w.portid, specVal c e1 w.addr, specVal c e1 w.data, specVal c e1 w.en))
   -- synchronous read ports
   let rdUpdates := s.flat.rds.filterMap (fun r =>
     if edge r.pol (clk0 r.clk) (specVal c e1 r.clk) && specVal c e1 r.en % 2 == 1 then
